@@ -367,6 +367,7 @@ func violate(l *mc.Local, r *result, key string, what func() string, rc rcase) {
 }
 
 var reported sync.Map
+var sampled sync.Map // traces of which an ordinary round trip has been put into the evidence file
 
 // The engine keeps the first case of every key; in addition the shortest violating input of
 // every key (ties: fewer hints, then lexicographic) is tracked and listed at the end of the run.
@@ -668,6 +669,11 @@ func evalCase(l *mc.Local, sub, t string, h hints, level int) (r result) {
 	switch {
 	case refOK && libExact:
 		l.Distinct("outcomes", "ok")
+		if _, seen := sampled.Load(ti.trace); !seen && ti.latches >= 2 {
+			if _, dup := sampled.LoadOrStore(ti.trace, true); !dup {
+				chk.Sample("round trip, trace "+ti.trace, map[string]interface{}{"text": show(t), "hints": h.String(), "symbol": sym.String(), "codewords": clipCW(cw)})
+			}
+		}
 	case libLenient && !libExact:
 		// independent of everything else: the decoder's text is not the Go string that was written
 		violate(l, &r, "C02/decoder/latin1-raw-bytes", func() string {
